@@ -187,7 +187,10 @@ var skewOps = []Op{{"RegConn", "b1"}, {"RegConn", "b4"}, {"DropConn", "b1"}, {"D
 // up a valid new revision and refuse an invalid one without side effects.
 var revOps = []Op{{"RegConn", "bd"}, {"DropConn", "bd"}, {"Rev", "2"}, {"Rev", "1"}, {"Rev", "bad"}}
 
-var extOps = append(append(append([]Op{}, revOps...), allOps...), Op{"RegConn", "b3x"}, Op{"DropConn", "b3x"}, Op{"RegConn", "b4"}, Op{"DropConn", "b4"})
+// revOps2 adds a replica bd2 of bd that stays on revision 1.
+var revOps2 = append(append([]Op{}, revOps...), Op{"RegConn", "bd2"}, Op{"DropConn", "bd2"})
+
+var extOps = append(append(append([]Op{}, revOps2...), allOps...), Op{"RegConn", "b3x"}, Op{"DropConn", "b3x"}, Op{"RegConn", "b4"}, Op{"DropConn", "b4"})
 
 func randomHistory(rng *rand.Rand, minLen, maxLen int) History {
 	n := minLen + rng.Intn(maxLen-minLen+1)
@@ -301,6 +304,20 @@ func RunC11(r *mon.Run) {
 		total += len(keep)
 		outs := g.runAll(keep, Draws)
 		for i, h := range keep {
+			g.account(h, outs[i])
+			g.attribute(h, outs[i], Draws)
+		}
+	}
+	// both replicas registered, then every sequence over them and the
+	// revision switches
+	for L := 1; L <= extLen; L++ {
+		var hs []History
+		for _, t := range enumerate(revOps2, L) {
+			hs = append(hs, append(History{{"RegConn", "bd"}, {"RegConn", "bd2"}}, t...))
+		}
+		total += len(hs)
+		outs := g.runAll(hs, Draws)
+		for i, h := range hs {
 			g.account(h, outs[i])
 			g.attribute(h, outs[i], Draws)
 		}
